@@ -17,6 +17,10 @@ structure Platform where
   llongBits : Nat
 
 def lp64 : Platform := ⟨8, 16, 32, 64, 64⟩
+/-- 32-bit `long` (ILP32, and LLP64 as far as the integer types go) -/
+def ilp32 : Platform := ⟨8, 16, 32, 32, 64⟩
+/-- 16-bit `int` -/
+def ip16 : Platform := ⟨8, 16, 16, 32, 64⟩
 
 /-- 6.3.1.1p1 integer conversion rank -/
 def rank : BK → Nat
